@@ -23,7 +23,8 @@
 //   - a named struct type of the repository -> a generated `structure pkg_Type` with one field per Go
 //     field of translatable type (embedded structs are nested structures); fields of reference type
 //     (pointer, interface, map, chan, func, slice of non-bytes, unsafe.Pointer) become a Bool "is non-nil"
-//     and may only be compared with nil; fields of any other type (floats, foreign structs such as
+//     and may only be compared with nil; sync/atomic fields, time.Time and []T fields of listed element types
+//     are described under "Effect mode" below; fields of any other type (floats, foreign structs such as
 //     sync.Once) are dropped and any use of them is rejected. A pointer to such a struct (receiver,
 //     parameter, local, result) is the struct value: nil pointers are NOT modelled (receivers and
 //     pointer parameters are assumed non-nil), comparing such a pointer with nil is rejected; a literal
@@ -79,9 +80,91 @@
 // len(x) into spare capacity counts as a panic; the effect of append on the spare capacity of its first
 // argument is not modelled (only the returned slice value is).
 //
-// Not supported (rejected): floats, maps, channels, goroutines, defer, closures (other than the iterator
-// form), generics, labels/goto, select, type switches/assertions, method values, variadic calls, strings
-// other than as byte strings, package-level variables other than error sentinels, recursion.
+// # Effect mode: state, atomics, effects, oracles (translate_eff.go; Lean side: the last section of GoPrelude.lean)
+//
+// A function that only computes a value is translated as above (PURE mode). A function that does more is
+// translated in EFFECT mode; the mode is not chosen by a table but found by translating: an attempt that meets one
+// of the constructs below is repeated with the mode switched on. The generated function's value is the tuple
+//
+//	(receiver after the call)?  ×  Go results…  ×  List Go.Effect  ×  (unused oracle values)?
+//
+// (`Option` of it when the function can panic or contains a fuel-bounded loop), stated in its doc comment.
+//
+//   - STATE PASSING. A method on *T whose body assigns a field of its receiver (directly, through an atomic
+//     operation, or through a translated callee that does) takes the receiver as a VALUE and returns the updated
+//     value first; a call `x.m(…)` of such a method writes the returned value back into `x` (x: the caller's own
+//     receiver, or a path of fields rooted at a local that is not a pointer). Aliasing is excluded syntactically:
+//     in such a function every occurrence of the receiver variable must be the operand of a field selection or of
+//     a method call (`r.f`, `r.m(…)`): it is never copied, passed as an argument, stored, returned, compared or
+//     captured; no address below it is taken (`&r.f`); function literals are rejected. Evaluation order: a call
+//     that writes the receiver and a plain read of a receiver field in the same expression are rejected (Go
+//     leaves their order unspecified); every value produced by a call with effects is bound to a temporary at the
+//     point of the call.
+//   - ATOMICS. A struct field of type sync/atomic.Uint32 / Uint64 / Uintptr / Int32 / Int64 is an Int field, .Bool a
+//     Bool field, .Pointer[T] a Bool ("non-nil", Load only); atomic.Value is dropped. Such a field can only be used
+//     through its methods: Load() reads it, Store(v) writes it, Add(d) adds with the wrap-around of its width and
+//     yields the new value, Swap(v) writes and yields the old value, CompareAndSwap(o, n) writes n iff the field
+//     equals o and yields whether it did — the SEQUENTIAL meaning — and EACH operation also appends
+//     `Effect.atomic "<RootType>.<field path>" "<Op>" [operands]` to the trace. The sequential meaning is the
+//     meaning of ONE goroutine's code between its own atomic operations when no other goroutine writes the
+//     location in between; it says nothing about interleavings. Those stay in the hand-written models; what the
+//     translation ties is each thread's local code, and the trace lets a theorem state which atomic operations
+//     it performs and in what order.
+//   - EFFECTS. A call that is not translated appends `Effect.call "<callee>" args` to the trace, in program order:
+//     a method of an interface value without devirtualisation entry (callee = "<pkg>.<Interface>.<Method>", the
+//     static type of the receiver expression), a call of a function-valued struct field
+//     ("<pkg>.<Type>.<field>"), a repository function or method listed in the asEffect table (its key; a method
+//     only on the function's own receiver or on a receiver the translation holds no value for: a reference
+//     field, an opaque local). `ch <- v` on a channel field appends `Effect.send "<Type>.<field>" [v]`. The arguments
+//     are the translated values (a struct contributes its leaves in field order: T.toVals); an argument outside
+//     the subset is `Val.opaque`, accepted only when dropping its evaluation loses nothing (harmless(): no
+//     function literal, receive, address-of, atomic operation, interface call; every call inside is a conversion,
+//     len/cap/min/max, a function outside the repository, a PURE translatable repository function, or listed in
+//     the ignore / pure-getter tables). For an asEffect method called on the function's own receiver the receiver
+//     fields that callee may write (found syntactically, through the methods it calls on its receiver; "unknown"
+//     if its receiver escapes) must be disjoint from the fields the translated code touches, otherwise the function
+//     is rejected: an `Effect.call` stands for the whole execution of the callee, and the receiver value the
+//     translation returns reflects only the writes of the translated code itself.
+//   - ORACLES. When the RESULT of such an untranslated call is used, the call is still recorded in the trace and
+//     its result is the next value of the oracle list, an extra last parameter `orc_ : List Go.Val` consumed in
+//     call order (a struct result reads its leaves in field order: T.ofVals; a missing or ill-typed value reads as
+//     the zero value); the unused rest of the list is the last component of the function's value. A call in
+//     statement position and `_ = f(…)` consume nothing.
+//   - IGNORED CALLEES (table ignoredCallees: loggers, sync.Mutex / RWMutex Lock / Unlock, the hsms / hsmsss metrics
+//     counters) leave NO trace; the call and the evaluation of its arguments and receiver expression are dropped
+//     (only in statement position, only when harmless() accepts the dropped expressions; panics inside them are
+//     not modelled). The tables are printed in the header of every generated file that contains an effect-mode
+//     function.
+//   - A method of a named integer / boolean / byte-string type with a VALUE receiver is called with the value.
+//   - time.Time is an Int: an instant on an abstract timeline in nanoseconds; only the zero literal `time.Time{}`
+//     (= 0), assignment and `t.Sub(u)` (= t - u; saturation at ±2^63 ns is outside the model) are accepted.
+//   - A []T field of a struct, for T in listFieldOK (secs1.block), is a `List T` field. It is read as a whole
+//     (len, index, range, passed to a translated function that only reads it) and assigned only as
+//     `x.f = append(x.f, v…)` (x.f ++ [v…]), `x.f = append(x.f[:0], v…)` ([v…]), `x.f = x.f[:0]` / `nil` ([]): the
+//     value of the field is the list of its current elements; the reuse of its backing array is not observable by
+//     the translated code because the field is never given a second name.
+//   - OPAQUE LOCALS. A local of pointer-to-struct type that only ever receives nil, an atomic.Pointer Load(), a
+//     reference field or another opaque local is a Bool ("non-nil"); it can be compared with nil and be the
+//     receiver of an asEffect method call.
+//   - devirtIn: an interface stands for ONE implementation while a function of a given package is translated
+//     (not in struct fields): in package hsmsss, hsms.Message ↦ *hsms.ControlMessage (see the table). Under such
+//     an entry `v, ok := x.(*Impl)` is `v := x, ok := true`; every other type assertion is rejected.
+//   - fmt.Errorf with %w applied to an error VALUE (not a sentinel) is `Go.wrapErr format e`: e when non-nil.
+//   - A tag-less `switch` evaluates the case expressions of an arm only after the earlier arms failed to match;
+//     an effect in a case expression (e.g. an atomic Load) is therefore sequenced into the else-branch of the
+//     earlier arms. `a && b` / `a || b` whose right operand has effects advances the synthetic state only when Go
+//     evaluates b.
+//   - LOOPS WITHOUT AN EVIDENT TRIP COUNT (`for init; cond; post` that is not the counted shape, `for cond`, `for`)
+//     are unrolled loopFuel (= 4) times with Go.loopWhileM: the function becomes Option-valued and `none` then
+//     means "a panic, OR the loop was still running after 4 iterations" — no claim is made about such runs; every
+//     tie theorem proves `= some _`.
+//
+// Not supported (rejected) in either mode: floats, maps, channel receive and close, goroutines, select, defer,
+// closures (other than the iterator form), generics, labels/goto, type switches and every type assertion not
+// covered by a devirtualisation entry, method values, variadic calls (other than ignored ones), strings other than as
+// byte strings, package-level variables other than error sentinels, recursion, atomic.Pointer Store / Swap /
+// CompareAndSwap, atomic.Value, time.Time arithmetic other than Sub, effects inside windows and iterator functions,
+// a function value that is not a struct field, an untranslated repository callee that is not in asEffect.
 package main
 
 import (
@@ -98,6 +181,31 @@ import (
 // devirt: interface type -> the implementation that stands for it (both "rel.Type").
 var devirt = map[string]string{
 	"internal/wire.Body": "internal/wire.rawFrameBody",
+}
+
+// devirtIn: like devirt, but only while a function of the given package is being translated (and only for
+// values, not for struct fields). The assumption is about the CODE of that package: every value of the interface
+// type that it handles is of the named implementation.
+//
+//	hsmsss: hsms.Message ↦ *hsms.ControlMessage. The receive-side control paths (dispatchFrame and the handlers)
+//	  obtain every hsms.Message from decodeControlFrame on a header-only frame whose SType is a control type, for
+//	  which hsms.DecodeHSMSMessage returns a *ControlMessage; data frames never become a Message there (they
+//	  are handed over as bytes). A type assertion to the implementation therefore succeeds.
+var devirtIn = map[string]map[string]string{
+	"hsmsss": {"hsms.Message": "hsms.ControlMessage"},
+}
+
+// devirtOf: the implementation that stands for interface `name` ("rel.Type") in the current scope.
+func (g *G) devirtOf(name string, inField bool) (string, bool) {
+	if impl, ok := devirt[name]; ok {
+		return impl, true
+	}
+	if !inField {
+		if impl, ok := devirtIn[g.scope][name]; ok {
+			return impl, true
+		}
+	}
+	return "", false
 }
 
 // ---------- Lean-side types ----------
@@ -121,6 +229,7 @@ type ltype struct {
 	arrLen int // >= 0 for [N]byte
 	st     *structInfo
 	elem   *ltype // kList: the element type
+	atomic string // field of type sync/atomic.<atomic> ("" otherwise): only reachable through its methods
 }
 
 type sfield struct {
@@ -149,6 +258,14 @@ type fnOut struct {
 	deps    map[string]bool // rels of packages whose generated file this one needs
 	resLean string
 	nres    int
+	// effect mode (translate_eff.go): shape of the generated function's value
+	eff    bool // … × List Go.Effect
+	recvW  bool // the receiver is written: first component = the receiver after the call
+	useOrc bool // takes `orc_ : List Go.Val` last, returns the unused oracle values last
+	// receiver fields (first level) the function reads or writes itself or through translated callees, and
+	// receiver fields that callees treated as opaque effects (asEffect) may write: must stay disjoint
+	touched      map[string]bool
+	opaqueWrites map[string]string // field -> the asEffect callee that may write it
 }
 
 type G struct {
@@ -158,6 +275,7 @@ type G struct {
 	structOrd  []string
 	inProgress map[string]bool
 	legacy     map[string]bool // keys emitted into Funcs.lean
+	scope      string          // rel of the package whose function is being translated (devirtIn)
 }
 
 func newG() *G {
@@ -233,7 +351,7 @@ func (g *G) leanType(ty types.Type, inField bool) ltype {
 	}
 	if n, ok := ty.(*types.Named); ok {
 		if rel, ok := relOf(n.Obj().Pkg()); ok {
-			if impl, ok := devirt[rel+"."+n.Obj().Name()]; ok {
+			if impl, ok := g.devirtOf(rel+"."+n.Obj().Name(), inField); ok {
 				i := strings.LastIndex(impl, ".")
 				if pi, err := loadPkg(repoRoot, impl[:i]); err == nil && pi.pkg != nil {
 					if o := pi.pkg.Scope().Lookup(impl[i+1:]); o != nil {
@@ -246,6 +364,25 @@ func (g *G) leanType(ty types.Type, inField bool) ltype {
 	}
 	if al, ok := ty.(*types.Alias); ok {
 		return g.leanType(types.Unalias(al), inField)
+	}
+	if isTimeTime(ty) {
+		// an instant on an abstract timeline, in nanoseconds (see the subset description: only the zero literal,
+		// assignment, and t.Sub(u) are accepted)
+		return ltype{k: kInt, lean: "Int", arrLen: -1}
+	}
+	if a := atomicKind(ty); a != "" {
+		if !inField {
+			return ltype{k: kDrop} // an atomic is never copied: only a field, only through its methods
+		}
+		switch a {
+		case "Bool":
+			return ltype{k: kBool, lean: "Bool", arrLen: -1, atomic: a}
+		case "Pointer":
+			return ltype{k: kOpaque, lean: "Bool", arrLen: -1, atomic: a}
+		case "Value":
+			return ltype{k: kDrop}
+		}
+		return ltype{k: kInt, lean: "Int", arrLen: -1, atomic: a}
 	}
 	switch u := ty.Underlying().(type) {
 	case *types.Basic:
@@ -273,8 +410,8 @@ func (g *G) leanType(ty types.Type, inField bool) ltype {
 		if isByteBasic(u.Elem()) {
 			return ltype{k: kBytes, lean: "Go.Bytes", arrLen: -1}
 		}
-		if n, ok := u.Elem().(*types.Named); ok && !inField {
-			if _, isSt := n.Underlying().(*types.Struct); isSt {
+		if n, ok := u.Elem().(*types.Named); ok {
+			if _, isSt := n.Underlying().(*types.Struct); isSt && (!inField || listFieldOK(n)) {
 				if el := g.leanType(n, false); el.k == kStruct {
 					return ltype{k: kList, lean: "(List " + el.lean + ")", arrLen: -1, elem: &el, st: el.st}
 				}
@@ -406,6 +543,9 @@ func (g *G) translate(key string) *fnOut {
 	}
 	g.inProgress[key] = true
 	defer delete(g.inProgress, key)
+	savedScope := g.scope
+	g.scope = rel
+	defer func() { g.scope = savedScope }()
 	p, err := loadPkg(repoRoot, rel)
 	if err != nil || p.pkg == nil {
 		out.why = "package not loadable"
@@ -418,8 +558,14 @@ func (g *G) translate(key string) *fnOut {
 		g.fns[key] = out
 		return out
 	}
-	for _, optMode := range []bool{false, true} {
-		t := &tr{g: g, p: p, fd: fd, key: key, optMode: optMode, names: map[*types.Var]string{}, used: map[string]bool{},
+	var m modes
+	for tries := 0; ; tries++ {
+		if tries > 8 {
+			out.why = "internal: translation modes do not settle"
+			break
+		}
+		t := &tr{g: g, p: p, fd: fd, key: key, optMode: m.opt, eff: m.eff, recvW: m.recvW, useOrc: m.orc,
+			names: map[*types.Var]string{}, used: map[string]bool{},
 			written: map[*types.Var]bool{}, fresh: map[*types.Var]bool{}, out: out}
 		again := false
 		func() {
@@ -429,19 +575,26 @@ func (g *G) translate(key string) *fnOut {
 					case untranslatable:
 						out.why = u.why
 					case needOption:
+						again, m.opt = true, true
+					case needMode:
 						again = true
+						m.eff = true
+						m.recvW = m.recvW || u.recvW
+						m.orc = m.orc || u.orc
 					default:
 						panic(r)
 					}
 				}
 			}()
+			out.touched, out.opaqueWrites = map[string]bool{}, map[string]string{}
 			if win != nil {
 				t.windowFunction(win)
 			} else {
 				t.function()
 			}
 			out.ok = true
-			out.partial = optMode
+			out.partial = m.opt
+			out.eff, out.recvW, out.useOrc = m.eff, m.recvW, m.orc
 		}()
 		if !again {
 			break
@@ -459,6 +612,11 @@ func (g *G) translate(key string) *fnOut {
 
 type untranslatable struct{ why string }
 type needOption struct{}
+
+// modes: how the function is translated; a translation attempt that finds it needs more panics with
+// needOption / needMode and is repeated (translate).
+type modes struct{ opt, eff, recvW, orc bool }
+type needMode struct{ recvW, orc bool }
 
 func bail(format string, a ...any) { panic(untranslatable{fmt.Sprintf(format, a...)}) }
 
@@ -486,6 +644,13 @@ type tr struct {
 	nonFreshPos map[*types.Var][]token.Pos
 	loops       [][2]token.Pos
 	inReturn    bool
+	// effect mode (translate_eff.go)
+	eff, recvW, useOrc bool
+	recvParam          *types.Var // the receiver variable of a method (any mode)
+	trVar, orcVar      *types.Var // synthetic locals: the effect trace, the remaining oracle values
+	opaqueVars         map[*types.Var]bool
+	allowAtomic        bool
+	winMut, winRead    bool // since the last flush: the receiver was written / a plain receiver field was read
 }
 
 func (t *tr) pos(n ast.Node) string {
@@ -520,7 +685,14 @@ func (t *tr) lt(ty types.Type, what string) ltype {
 	return l
 }
 
-func (t *tr) ltOf(e ast.Expr) ltype { return t.lt(t.typeOf(e), "expression at "+t.pos(e)) }
+func (t *tr) ltOf(e ast.Expr) ltype {
+	if id, ok := ast.Unparen(e).(*ast.Ident); ok && t.opaqueVars != nil {
+		if v := t.varOf(id); v != nil && t.opaqueVars[v] {
+			return ltype{k: kOpaque, lean: "Bool", arrLen: -1}
+		}
+	}
+	return t.lt(t.typeOf(e), "expression at "+t.pos(e))
+}
 
 func (t *tr) declare(v *types.Var) string {
 	if n, ok := t.names[v]; ok {
@@ -587,6 +759,7 @@ func (t *tr) hoist(op string) string {
 
 // flush returns the pending binds as a prefix for the statement being emitted.
 func (t *tr) flush(ind string) string {
+	t.winMut, t.winRead = false, false
 	if len(t.binds) == 0 {
 		return ""
 	}
@@ -863,6 +1036,13 @@ func (t *tr) selector(x *ast.SelectorExpr) string {
 		}
 		base := t.expr(x.X)
 		bt := t.typeOf(x.X)
+		t.noteRecvField(x, sel, false)
+		if t.isRecvRooted(x) && !t.allowAtomic {
+			if t.winMut {
+				bail("receiver field read after a receiver-writing call in one expression (evaluation order) at %s", t.pos(x))
+			}
+			t.winRead = true
+		}
 		return t.fieldPath(base, bt, sel.Index(), x)
 	}
 	// qualified identifier pkg.Name
@@ -896,6 +1076,9 @@ func (t *tr) fieldPath(base string, bt types.Type, index []int, at ast.Node) str
 		for _, sf := range lt.st.fields {
 			if sf.goName == f.Name() {
 				found = true
+				if sf.lt.atomic != "" && !t.allowAtomic {
+					bail("atomic field %s used other than through Load/Store/Add/Swap/CompareAndSwap at %s", f.Name(), t.pos(at))
+				}
 			}
 		}
 		if !found {
@@ -986,6 +1169,47 @@ func (t *tr) binary(x *ast.BinaryExpr) string {
 				return "(" + a + " && " + b + ")"
 			}
 			return "(" + a + " || " + b + ")"
+		}
+		if t.eff && !(len(inner) > 0 && !strings.Contains(strings.Join(inner, ""), "let ")) {
+			// the right operand has effects (and may panic): evaluate it, and advance the synthetic state, only
+			// when Go would
+			vars := t.effVars()
+			n := t.fresh1("t_")
+			names := []string{}
+			tys := []string{"Bool"}
+			for _, v := range vars {
+				names = append(names, t.names[v])
+				if et := t.effTypeOf(v); et != "" {
+					tys = append(tys, "("+et+")")
+				} else {
+					tys = append(tys, t.ltVar(v, "receiver").lean)
+				}
+			}
+			tup := func(first string) string { return "(" + strings.Join(append([]string{first}, names...), ", ") + ")" }
+			short := "false"
+			if x.Op == token.LOR {
+				short = "true"
+			}
+			body := "    " + strings.Join(inner, "    ")
+			if pureLets(inner) {
+				yes, no := body+"    "+tup(b), tup(short)
+				if x.Op == token.LOR {
+					t.binds = append(t.binds, fmt.Sprintf("let %s := ((if %s then %s else\n%s) : %s)\n", tup(n), a, no, yes, strings.Join(tys, " × ")))
+				} else {
+					t.binds = append(t.binds, fmt.Sprintf("let %s := ((if %s then\n%s else %s) : %s)\n", tup(n), a, yes, no, strings.Join(tys, " × ")))
+				}
+				return n
+			}
+			if !t.optMode {
+				panic(needOption{})
+			}
+			yes, no := body+"    (some "+tup(b)+")", "(some "+tup(short)+")"
+			if x.Op == token.LOR {
+				t.binds = append(t.binds, fmt.Sprintf("((if %s then %s else\n%s) : Option (%s)).bind fun %s =>\n", a, no, yes, strings.Join(tys, " × "), tup(n)))
+			} else {
+				t.binds = append(t.binds, fmt.Sprintf("((if %s then\n%s else %s) : Option (%s)).bind fun %s =>\n", a, yes, no, strings.Join(tys, " × "), tup(n)))
+			}
+			return n
 		}
 		// the right operand can panic: evaluate it only when Go would
 		body := strings.Join(inner, "") + "(some " + b + ")"
@@ -1170,6 +1394,9 @@ func (t *tr) slice(x *ast.SliceExpr) string {
 
 func (t *tr) composite(x *ast.CompositeLit) string {
 	ty := t.typeOf(x)
+	if isTimeTime(ty) && len(x.Elts) == 0 {
+		return "0" // time.Time{}
+	}
 	lt := t.lt(ty, "composite literal at "+t.pos(x))
 	switch lt.k {
 	case kStruct:
@@ -1349,7 +1576,8 @@ func (t *tr) errorf(x *ast.CallExpr) string {
 				bail("fmt.Errorf with two %%w verbs at %s", t.pos(x))
 			}
 			if !strings.HasPrefix(s, "(some \"") {
-				bail("%%w operand is not an error sentinel at %s", t.pos(x))
+				// wrapping an error VALUE: identified by what it wraps (the format when it is nil)
+				s = fmt.Sprintf("(Go.wrapErr %q %s)", format, s)
 			}
 			res = s
 		}
@@ -1375,6 +1603,12 @@ func (t *tr) call(x *ast.CallExpr, stmt bool) string {
 			return t.builtin(id.Name, x)
 		}
 	}
+	if s, ok := t.atomicCall(x); ok {
+		return s
+	}
+	if name := t.calleeName(x); name != "" && ignoredCallee(name) {
+		return t.ignoredCall(name, x, stmt)
+	}
 	switch name := t.externalName(x.Fun); name {
 	case "encoding/binary.BigEndian.Uint16":
 		return t.uintN(x.Args, 2, x)
@@ -1396,8 +1630,20 @@ func (t *tr) call(x *ast.CallExpr, stmt bool) string {
 	default:
 		bail("call of %s at %s", name, t.pos(x))
 	}
+	if fn := t.calleeFunc(x.Fun); fn != nil && fn.FullName() == "(time.Time).Sub" && len(x.Args) == 1 {
+		sel := ast.Unparen(x.Fun).(*ast.SelectorExpr)
+		a := t.expr(sel.X)
+		b := t.expr(x.Args[0])
+		return "(" + a + " - " + b + ")" // saturation at ±2^63 ns is outside the model
+	}
 	fn := t.calleeFunc(x.Fun)
 	if fn == nil {
+		// a function value: only a function-valued struct field, as an effect (translate_eff.go)
+		if name := t.calleeName(x); name != "" {
+			if sig, ok := t.typeOf(x.Fun).Underlying().(*types.Signature); ok {
+				return t.effectCall(name, x, sig, stmt)
+			}
+		}
 		bail("call of a function value / unresolved callee at %s", t.pos(x))
 	}
 	sig := fn.Type().(*types.Signature)
@@ -1422,21 +1668,32 @@ func (t *tr) call(x *ast.CallExpr, stmt bool) string {
 				bail("call through an unnamed interface at %s", t.pos(x))
 			}
 			rel, _ := relOf(n.Obj().Pkg())
-			impl, ok := devirt[rel+"."+n.Obj().Name()]
+			impl, ok := t.g.devirtOf(rel+"."+n.Obj().Name(), false)
 			if !ok {
-				bail("call of interface method %s.%s (no devirtualisation entry) at %s", n.Obj().Name(), fn.Name(), t.pos(x))
+				// a method of an interface value: an effect (translate_eff.go)
+				return t.effectCall(t.calleeName(x), x, sig, stmt)
 			}
 			key = impl + "." + fn.Name()
+		}
+		if asEffectCallee(key) {
+			return t.effectCall(key, x, sig, stmt)
 		}
 		// promoted method through embedded fields
 		recvExpr := t.expr(sel.X)
 		if s, ok := t.p.info.Selections[sel]; ok && len(s.Index()) > 1 {
 			recvExpr = t.fieldPath(recvExpr, rt, s.Index()[:len(s.Index())-1], x)
 		}
-		if t.ltOf(sel.X).k != kStruct {
-			bail("method call on a receiver that is not a translatable struct at %s", t.pos(x))
+		if rk := t.ltOf(sel.X).k; rk != kStruct {
+			// a method of a named integer / boolean / byte-string type with a VALUE receiver gets the value
+			_, ptrRecv := r.Type().Underlying().(*types.Pointer)
+			if ptrRecv || (rk != kInt && rk != kBool && rk != kBytes) {
+				bail("method call on a receiver that is not a translatable struct at %s", t.pos(x))
+			}
 		}
 		args = append(args, recvExpr)
+	}
+	if asEffectCallee(key) && sig.Recv() == nil {
+		return t.effectCall(key, x, sig, stmt)
 	}
 	callee := t.g.translate(key)
 	if !callee.ok {
@@ -1445,6 +1702,12 @@ func (t *tr) call(x *ast.CallExpr, stmt bool) string {
 	t.out.deps[callee.rel] = true
 	for i, a := range x.Args {
 		args = append(args, t.argFor(a, sig.Params().At(i).Type()))
+	}
+	if callee.eff {
+		return t.effCalleeCall(callee, x, sig, args)
+	}
+	if sig.Recv() != nil {
+		t.mergeCallee(callee, ast.Unparen(x.Fun).(*ast.SelectorExpr).X)
 	}
 	s := "(" + callee.lean + " " + strings.Join(args, " ") + ")"
 	if len(args) == 0 {
